@@ -272,3 +272,37 @@ func (c *Conn) verifHybridEncap(hs *serverHandshakeStateTLS13, sel CurveID, ks *
 	hs.hello.serverShare.data = append(hs.hello.serverShare.data, ciphertext...)
 	return nil
 }
+
+// VerifSendCoalesced writes prefix (already marshalled post-handshake handshake messages,
+// e.g. NewSessionTickets) followed by nKeyUpdates KeyUpdate messages as ONE TLS 1.3
+// record, as servers that coalesce their post-handshake messages do, and then advances
+// the write traffic secret once per KeyUpdate sent.
+func VerifSendCoalesced(c *Conn, prefix []byte, nKeyUpdates int, requestUpdate bool) error {
+	if err := c.Handshake(); err != nil {
+		return err
+	}
+	if c.vers != VersionTLS13 {
+		return errors.New("verif: needs TLS 1.3")
+	}
+	cipherSuite := cipherSuiteTLS13ByID(c.cipherSuite)
+	if cipherSuite == nil {
+		return errors.New("verif: no TLS 1.3 suite")
+	}
+	data := append([]byte(nil), prefix...)
+	for i := 0; i < nKeyUpdates; i++ {
+		b, err := (&keyUpdateMsg{updateRequested: requestUpdate && i == nKeyUpdates-1}).marshal()
+		if err != nil {
+			return err
+		}
+		data = append(data, b...)
+	}
+	c.out.Lock()
+	defer c.out.Unlock()
+	if _, err := c.writeRecordLocked(recordTypeHandshake, data); err != nil {
+		return err
+	}
+	for i := 0; i < nKeyUpdates; i++ {
+		c.out.setTrafficSecret(cipherSuite, QUICEncryptionLevelInitial, cipherSuite.nextTrafficSecret(c.out.trafficSecret))
+	}
+	return nil
+}
